@@ -3,7 +3,10 @@
 package kessoku
 
 import (
+	"go/ast"
+	"go/token"
 	"go/types"
+	"strconv"
 
 	"github.com/mazrean/kessoku/internal/pkg/collection"
 
@@ -552,4 +555,62 @@ func inv_NewGraph_shape_bfs_requires(metaData *MetaData, varPool *VarPool, graph
 	vs.Invariant("reverse", reverseEdgesCounted(graph, n1))
 	vs.Invariant("reverse_unvisited", unvisitedHaveNoReverseEdges(graph))
 	vs.Invariant("reverse_current", len(graph.reverseEdges[n1]) == kvcIdx)
+}
+
+// ---------------------------------------------------------------------------
+// C04: the import block - exactly the imports marked used, spelled with an alias exactly when the name differs from
+// the package's own name
+// ---------------------------------------------------------------------------
+
+//kvc:contract GetUsedImports
+func contract_GetUsedImports(imports map[string]*Import) (result map[string]*Import) {
+	vs.Requires(importsNonNil(imports))
+	vs.Ensures("fresh_table", result != nil && !vs.Old(vs.IsAllocated(result)))
+	vs.Ensures("exactly_the_used_imports", vs.ForallString(func(path string) bool {
+		return vs.Has(result, path) == (vs.Has(imports, path) && imports[path].IsUsed) &&
+			vs.Implies(vs.Has(result, path), result[path] == imports[path])
+	}))
+	vs.Modifies()
+	vs.Allocates()
+	return
+}
+
+//kvc:loop GetUsedImports "for path, imp := range imports"
+func inv_GetUsedImports(imports map[string]*Import, used map[string]*Import, kvcSeen map[string]bool) {
+	vs.Invariant("input", importsNonNil(imports))
+	vs.Invariant("fresh_table", used != nil && !vs.Old(vs.IsAllocated(used)) && !vs.SameMap(used, imports))
+	vs.Invariant("used_so_far", vs.ForallString(func(path string) bool {
+		return vs.Has(used, path) == (vs.Has(kvcSeen, path) && vs.Has(imports, path) && imports[path].IsUsed) &&
+			vs.Implies(vs.Has(used, path), used[path] == imports[path])
+	}))
+}
+
+//kvc:contract importSpec
+func contract_importSpec(imp *Import, path string) (result *ast.ImportSpec) {
+	vs.Requires(imp != nil)
+	vs.Ensures("names_the_path", result != nil && result.Path != nil && result.Path.Kind == token.STRING && result.Path.Value == strconv.Quote(path))
+	vs.Ensures("alias_iff_renamed", (result.Name == nil) == imp.IsDefaultName && vs.Implies(result.Name != nil, result.Name.Name == imp.Name))
+	vs.Ensures("marks_used", imp.IsUsed)
+	vs.Modifies(imp.IsUsed)
+	vs.Allocates()
+	return
+}
+
+//kvc:contract generateImportDecl
+func contract_generateImportDecl(imporSpecs []*ast.ImportSpec) (result *ast.GenDecl) {
+	vs.Ensures("no_block_without_imports", (result == nil) == (len(imporSpecs) == 0))
+	vs.Ensures("one_spec_per_import_in_order", vs.Implies(result != nil, result.Tok == token.IMPORT && len(result.Specs) == len(imporSpecs) &&
+		vs.Forall(len(imporSpecs), func(i int) bool {
+			return vs.TypeIs[*ast.ImportSpec](result.Specs[i]) && vs.As[*ast.ImportSpec](result.Specs[i]) == imporSpecs[i]
+		})))
+	vs.Modifies()
+	vs.Allocates()
+	return
+}
+
+//kvc:loop generateImportDecl "for _, importSpec := range imporSpecs"
+func inv_generateImportDecl(imporSpecs []*ast.ImportSpec, specs []ast.Spec, kvcIdx int) {
+	vs.Invariant("copied_so_far", len(specs) == kvcIdx && vs.Forall(kvcIdx, func(i int) bool {
+		return vs.TypeIs[*ast.ImportSpec](specs[i]) && vs.As[*ast.ImportSpec](specs[i]) == imporSpecs[i]
+	}))
 }
